@@ -19,7 +19,7 @@
 (* strings as given: the stop test succeeds only when both spellings agree, filepath.Dir turns   *)
 (* "x/" into "x" (same directory, now clean), cleans a dotted path while moving up, and a        *)
 (* relative path bottoms out at "." (the working directory) -- named deviations.                 *)
-EXTENDS Integers, Sequences, FiniteSets, TLC
+EXTENDS Integers
 
 CONSTANTS Depth, Variant,
           Spellings     \* set of <<spelling of start, spelling of stop>> pairs explored
@@ -117,6 +117,14 @@ Correct == phase = "done" =>
              ELSE LET H == {l \in Ancestors(start) : spok[l] = "file"} IN                           \* unrelated: nearest enclosing
                   IF H = {} THEN result = NotFound ELSE result = (CHOOSE l \in H : \A m \in H : m <= l)
 NeverAboveStop == (Constrained /\ phase # "done") => cur >= stop
+\* Correct without CHOOSE (the form proved for every Depth in FindProof.tla; TLC checks that the two agree)
+CorrectP == phase = "done" =>
+             IF Constrained THEN (IF Hits = {} THEN result = NotFound ELSE result \in Hits /\ \A m \in Hits : m <= result)
+             ELSE IF start \in Levels /\ stop \in Levels
+             THEN result = NotFound \/ (result \in Ancestors(start) /\ spok[result] = "file")
+             ELSE LET H == {l \in Ancestors(start) : spok[l] = "file"} IN
+                  IF H = {} THEN result = NotFound ELSE result \in H /\ \A m \in H : m <= result
+CorrectAgree == Correct <=> CorrectP
 \* the configuration space of the registered checks
 AllSpellings == {<<"clean", "clean">>, <<"slash", "clean">>, <<"clean", "slash">>, <<"slash", "slash">>, <<"dotted", "clean">>,
                  <<"clean", "dotted">>, <<"rel", "clean">>, <<"clean", "rel">>, <<"rel", "rel">>}
